@@ -21,6 +21,7 @@ RULE = (
     "reference form; its own correctness is C01-C15's business); parse_schema(parsed) returns the same object for records "
     "and an equal one otherwise. distinct_nontrivial = distinct (schema, hoisted subset, operation, datum) tuples; subsets "
     "hoisting at least one type are the non-trivial ones."
+    ' Operation read-with-options reads under return_record_name / return_named_type and their override variants, schemaless and container.'
 )
 ASSUMPTIONS = [
     "hoisting the top-level type itself is not expressible (a bare name cannot carry its table) and is left out; only top-level records are used, because only parsed records carry the name table (anchor: __named_schemas inside parsed record schemas)",
@@ -115,6 +116,13 @@ EXTRA = [
             {"type": "record", "name": "Small", "fields": [{"name": "a", "type": "int", "default": 0}, {"name": "b", "type": "int", "default": 0}]},
             {"type": "record", "name": "Large", "fields": [{"name": "a", "type": "int", "default": 0}, {"name": "b", "type": "int", "default": 0}, {"name": "c", "type": "int", "default": 0}]}]},
         {"name": "us", "type": {"type": "array", "items": ["null", "Small", "Large"]}, "default": []}]},
+    # a union of records INSIDE a type that a piecewise schema reaches only by name (reader options must arrive there too)
+    {"type": "record", "name": "Shop", "namespace": "zoo", "fields": [
+        {"name": "cage", "type": {"type": "record", "name": "Cage", "fields": [
+            {"name": "animal", "type": [{"type": "record", "name": "Dog", "fields": [{"name": "tricks", "type": "int"}]},
+                                        {"type": "record", "name": "Cat", "fields": [{"name": "lives", "type": "int"}]}]},
+            {"name": "label", "type": "string", "default": "none"}]}},
+        {"name": "spare", "type": ["null", "Cage"], "default": None}, {"name": "all", "type": {"type": "array", "items": "zoo.Cage"}, "default": []}]},
     {"type": "record", "name": "Outer", "namespace": "u", "fields": [
         {"name": "pick", "type": [
             {"type": "record", "name": "First", "fields": [{"name": "x", "type": "int"}]},
